@@ -45,7 +45,7 @@ type OptDef struct {
 	Valid     []string
 	Suggested []string
 	SuggestFn int // 0 none, else id in the suggestion function family
-	SetCalled int // 0 not used, 1 SetCalled(true), 2 SetCalled(false)
+	SetCalled int // 0 not used, 1 SetCalled(true), 2 SetCalled(false) after GetEnv; 3, 4 the same before GetEnv
 	Desc      string
 	ArgName   string
 	UseVar    bool
@@ -214,6 +214,12 @@ func (b *Built) defineOpt(g *getoptions.GetOpt, path string, o *OptDef) {
 		} else {
 			fns = append(fns, g.Required())
 		}
+	}
+	switch o.SetCalled {
+	case 3:
+		fns = append(fns, g.SetCalled(true))
+	case 4:
+		fns = append(fns, g.SetCalled(false))
 	}
 	if o.Env != "" {
 		fns = append(fns, g.GetEnv(o.Env))
